@@ -279,11 +279,11 @@ func (cur *FieldMask) addPath(path string, curDesc *thrift_reflection.TypeDescri
 					}
 					break
 				}
-				empty = false
-
 				if typ == pathTypeElem {
+					// a separator is not an element
 					continue
 				}
+				empty = false
 
 				if typ == pathTypeAny {
 					cur.intMask.Reset()
@@ -368,11 +368,11 @@ func (cur *FieldMask) addPath(path string, curDesc *thrift_reflection.TypeDescri
 					}
 					break
 				}
-				empty = false
-
 				if typ == pathTypeElem {
+					// a separator is not an element
 					continue
 				}
+				empty = false
 
 				if typ == pathTypeAny {
 					// println("* for ", curDesc.KeyType.Name, ", path:", it.LeftPath())
